@@ -83,7 +83,10 @@ func c06Cases(tier string, seed uint64, flavor string) []lib.Case {
 		}
 	}
 	for bi := 0; bi < nb; bi++ {
-		for _, name := range []string{"nested", "small"} {
+		for _, name := range []string{"nested", "small", "allempty"} {
+			if name == "allempty" && bi > 0 {
+				continue
+			}
 			bs := lib.Mix(seed, 6, uint64(bi))
 			b := valBuild(name, bs)
 			var dmgs [][]lib.Damage
